@@ -196,6 +196,7 @@ func genTree(t *rapid.T, rootKind fkind, maxNodes, maxDepth, idBase int, noCSOOG
 		root.value = 2
 	}
 	root.number(idBase)
+	addReentries(t, root, 25)
 	knownC := stats.IsKnown("F-C12-c")
 	root.walk(func(n *node) {
 		if n.deposit < n.span {
@@ -222,6 +223,121 @@ func genTree(t *rapid.T, rootKind fkind, maxNodes, maxDepth, idBase int, noCSOOG
 		}
 	})
 	return root, g.steered
+}
+
+// addReentries turns some leaves into a second (third, ...) execution of an EARLIER leaf: a call-family
+// leaf calls the same contract address again (any call kind, own value and gas), a CREATE/CREATE2 leaf
+// repeats the same init code and salt. Leaves that self-destruct are preferred as targets.
+func addReentries(t *rapid.T, root *node, pct int) {
+	var callLeaves, createLeaves []*node
+	root.walk(func(n *node) {
+		if n.parent == nil || len(n.steps) != 0 && len(n.children()) != 0 {
+			return
+		}
+		if len(n.children()) != 0 {
+			return
+		}
+		pool := &callLeaves
+		if n.kind.creates() {
+			pool = &createLeaves
+		}
+		if len(*pool) > 0 && rapid.IntRange(0, 99).Draw(t, "reenter") < pct {
+			var pref []*node
+			for _, x := range *pool {
+				if x.out == oSelfdestruct {
+					pref = append(pref, x)
+				}
+			}
+			cand := *pool
+			if len(pref) > 0 && rapid.Bool().Draw(t, "preferSelfdestructed") {
+				cand = pref
+			}
+			tgt := cand[rapid.IntRange(0, len(cand)-1).Draw(t, "reenterTarget")]
+			n.alias = tgt
+			n.steps = nil
+			n.out = tgt.out
+			if n.kind.creates() {
+				n.kind = tgt.kind
+			}
+			return
+		}
+		*pool = append(*pool, n)
+	})
+}
+
+// genReentryTree is the focused family "second occurrence on the same account": a leaf contract T
+// (effects, then selfdestruct/return/revert) is executed once, then again - from a frame that may
+// fail afterwards, through any call kind, possibly with value - and possibly a third time.
+func genReentryTree(t *rapid.T, idBase int) *node {
+	effects := func(label string, max int) []step {
+		var l []step
+		for i, n := 0, rapid.IntRange(0, max).Draw(t, label); i < n; i++ {
+			switch rapid.IntRange(0, 3).Draw(t, "effKind") {
+			case 0:
+				l = append(l, step{k: sSstore, slot: uint64(rapid.IntRange(0, 1).Draw(t, "slot")), val: uint64(rapid.IntRange(0, 9).Draw(t, "val"))})
+			case 1:
+				l = append(l, step{k: sTstore, slot: uint64(rapid.IntRange(0, 1).Draw(t, "slot")), val: uint64(rapid.IntRange(0, 9).Draw(t, "val"))})
+			case 2:
+				l = append(l, step{k: sLog, data: uint64(rapid.IntRange(1, 99).Draw(t, "data")), topics: []uint64{7}})
+			default:
+				l = append(l, step{k: sTransfer, to: rapid.IntRange(0, len(eoas)-1).Draw(t, "to"), amount: 1})
+			}
+		}
+		return l
+	}
+	create := rapid.IntRange(0, 3).Draw(t, "createTarget") == 0
+	T := &node{kind: kCall, steps: effects("tEffects", 2), benef: rapid.IntRange(0, len(eoas)-1).Draw(t, "benef")}
+	if create {
+		T.kind = rapid.SampledFrom([]fkind{kCreate2, kCreate2, kCreate}).Draw(t, "tKind")
+	}
+	T.value = uint64(rapid.IntRange(0, 2).Draw(t, "tValue"))
+	T.out = outcome(rapid.SampledFrom([]int{int(oSelfdestruct), int(oSelfdestruct), int(oSelfdestruct), int(oReturn), int(oRevert), int(oInvalid)}).Draw(t, "tOut"))
+	again := func(label string) *node {
+		n := &node{alias: T, out: T.out, kind: T.kind, benef: T.benef}
+		if !create {
+			n.kind = rapid.SampledFrom([]fkind{kCall, kCall, kCall, kDelegate, kCallCode, kStatic}).Draw(t, label+"Kind")
+		}
+		if n.kind == kCall || n.kind == kCallCode || n.kind.creates() {
+			n.value = uint64(rapid.IntRange(0, 2).Draw(t, label+"Value"))
+		}
+		return n
+	}
+	failing := []int{int(oRevert), int(oRevertData), int(oInvalid), int(oOOGMem), int(oUnderflow)}
+	// the frame(s) around the second execution
+	inner := &node{kind: rapid.SampledFrom([]fkind{kCall, kCall, kDelegate, kCallCode, kStatic, kCreate}).Draw(t, "qKind"), out: oReturn}
+	inner.steps = append(effects("qPre", 1), step{k: sChild, child: again("second")})
+	inner.steps = append(inner.steps, effects("qPost", 1)...)
+	if rapid.IntRange(0, 9).Draw(t, "qFails") < 6 {
+		inner.out = outcome(rapid.SampledFrom(failing).Draw(t, "qOut"))
+	}
+	q := inner
+	if rapid.IntRange(0, 2).Draw(t, "qNest") == 0 {
+		q = &node{kind: rapid.SampledFrom([]fkind{kCall, kDelegate, kCreate2}).Draw(t, "q2Kind"), out: oReturn, steps: []step{{k: sChild, child: inner}}}
+		if rapid.Bool().Draw(t, "q2Fails") {
+			q.out = outcome(rapid.SampledFrom(failing).Draw(t, "q2Out"))
+		}
+	}
+	root := &node{kind: kCall, out: oReturn}
+	root.steps = append(effects("rPre", 1), step{k: sChild, child: T})
+	root.steps = append(root.steps, effects("rMid", 1)...)
+	if rapid.IntRange(0, 4).Draw(t, "direct") == 0 {
+		root.steps = append(root.steps, step{k: sChild, child: again("secondDirect")})
+	} else {
+		root.steps = append(root.steps, step{k: sChild, child: q})
+	}
+	if rapid.IntRange(0, 2).Draw(t, "third") == 0 {
+		root.steps = append(root.steps, step{k: sChild, child: again("third")})
+	}
+	root.steps = append(root.steps, effects("rPost", 1)...)
+	if rapid.IntRange(0, 9).Draw(t, "rootFails") == 0 {
+		root.out = oRevert
+	}
+	root.number(idBase)
+	root.walk(func(n *node) {
+		n.deposit = n.span
+		n.keep = 700_000
+	})
+	return root
 }
 
 // genStaticTree is the focused part of the domain: root -> STATICCALL -> 0-2 nested frames -> a leaf
@@ -335,8 +451,23 @@ func runVariant(tc *treeCase, variant *node, rebudget bool, label string) (*runO
 		e.st.SetCode(a, []byte{opSTOP})
 	}
 	out.root = e.st.IntermediateRoot(true)
+	created := e.createdSet()
 	for _, x := range e.universe() {
 		out.existPost[x] = e.st.Exist(x)
+		// after finalisation: a contract is gone iff it self-destructed in a frame whose effects count
+		a, ok := e.m.a[x]
+		sui := ok && a.suicided
+		_, hasCode := e.codes[x]
+		switch {
+		case hasCode:
+			if out.existPost[x] == sui {
+				d = append(d, fmt.Sprintf("after finalisation contract %s exists=%v, reference: self-destructed=%v", x.GetHexString(), out.existPost[x], sui))
+			}
+		case created[x]:
+			if want := ok && a.nonce > 0 && !sui; out.existPost[x] != want {
+				d = append(d, fmt.Sprintf("after finalisation created contract %s exists=%v, expected %v", x.GetHexString(), out.existPost[x], want))
+			}
+		}
 	}
 	for i := range d {
 		d[i] = label + ": " + d[i]
@@ -431,8 +562,8 @@ func sameState(a, b *runOut, label string, skip map[int]bool) (d []string, roots
 			continue
 		}
 		y, ok := cb[id]
-		if !ok {
-			continue
+		if !ok || !a.tx.rp.used[id] || !b.tx.rp.used[id] {
+			continue // targets of failed creations are covered by the reference fold (a collision target belongs to another frame)
 		}
 		pairs = append(pairs, pair{ca[id], y})
 		if ca[id] != y && (a.existPost[ca[id]] || b.existPost[y]) {
@@ -485,6 +616,9 @@ func shapeKey(n *node, used map[int]bool) string {
 			}
 		}
 		fmt.Fprintf(&sb, "%d/%d/%s(", n.kind, n.out, st)
+		if n.alias != nil {
+			fmt.Fprintf(&sb, "again%d", n.alias.id-tree0(n).id)
+		}
 		for _, s := range n.steps {
 			if s.k == sChild {
 				rec(s.child)
@@ -498,11 +632,11 @@ func shapeKey(n *node, used map[int]bool) string {
 	return sb.String()
 }
 
-func hasWork(n *node) bool { return len(n.steps) > 0 || n.value > 0 }
+func hasWork(n *node) bool { return len(n.prog().steps) > 0 || n.value > 0 || n.prog().out == oSelfdestruct }
 
 func hasWrite(n *node) bool {
-	w := n.out == oSelfdestruct
-	for _, s := range n.steps {
+	w := n.prog().out == oSelfdestruct
+	for _, s := range n.prog().steps {
 		if s.k != sChild || s.child.kind.creates() || s.child.value > 0 || hasWrite(s.child) {
 			w = true
 		}
@@ -523,6 +657,25 @@ func classify(tree *node, rp, pred *replayer, prefix string) string {
 		depth[n.id] = d
 		if d > maxd {
 			maxd = d
+		}
+		if n.alias != nil {
+			if p1, r1 := pred.used[n.alias.id]; r1 {
+				if p2, r2 := pred.used[n.id]; r2 {
+					inFailing := false
+					for q := n.parent; q != nil; q = q.parent {
+						if ok, reached := pred.used[q.id]; reached && !ok {
+							inFailing = true
+						}
+					}
+					stats.Class(fmt.Sprintf("%sreentry:%s first_ok=%v again_via_%s ok=%v in_failing_ancestor=%v", prefix, outName[n.alias.out], p1, kindName[n.kind], p2, inFailing))
+					if n.alias.out == oSelfdestruct && p1 && p2 && inFailing {
+						stats.Class(prefix + "reentry:SELFDESTRUCT_again_inside_frame_that_is_reverted")
+					}
+					if n.alias.out == oSelfdestruct && p1 && n.value > 0 && n.kind == kCall {
+						stats.Class(prefix + "reentry:value_sent_to_selfdestructed_contract")
+					}
+				}
+			}
 		}
 		ok, reached := rp.used[n.id]
 		if !reached {
@@ -546,7 +699,7 @@ func classify(tree *node, rp, pred *replayer, prefix string) string {
 		if why == "" {
 			why = pred.why[n.id]
 		}
-		for _, s := range n.steps {
+		for _, s := range n.prog().steps {
 			if s.k != sChild {
 				stats.Class(prefix + "effect_in_failed_frame:" + []string{"SSTORE", "TSTORE", "LOG", "TRANSFER", "", "AUTHCALL"}[s.k])
 			} else {
@@ -600,10 +753,14 @@ func TestFrameTrees(t *testing.T) {
 			rootKind = kCreate
 		}
 		var tree *node
-		if rapid.IntRange(0, 4).Draw(t, "staticFocusTree") == 0 {
+		if fam := rapid.IntRange(0, 9).Draw(t, "family"); fam <= 1 {
 			rootKind = kCall
 			tree = genStaticTree(t, 0)
 			stats.Class("generator:static_focus")
+		} else if fam <= 3 {
+			rootKind = kCall
+			tree = genReentryTree(t, 0)
+			stats.Class("generator:reentry_focus")
 		} else {
 			var steered bool
 			tree, steered = genTree(t, rootKind, 14, 4, 0, known)
@@ -752,6 +909,7 @@ func TestFrameTrees(t *testing.T) {
 var _ = os.Getenv
 
 func firstWrite(n *node) string {
+	n = n.prog()
 	for _, s := range n.steps {
 		switch s.k {
 		case sSstore:
@@ -786,4 +944,11 @@ func underStatic(n *node) bool {
 		}
 	}
 	return false
+}
+
+func tree0(n *node) *node {
+	for n.parent != nil {
+		n = n.parent
+	}
+	return n
 }
